@@ -95,7 +95,15 @@ func parseBatch(c *core.Ctx, inputs [][]byte, tree bool) ([]*parseOut, []string)
 
 // cliParse judges one input through the real CLI.
 func cliParse(c *core.Ctx, in []byte) (acc bool, abn string, res *runner.Result) {
-	res = run(c, in, "text", "parse")
+	// all three input paths take turns (chosen by the input itself, so a replay takes the same path)
+	switch hashBytes(in) % 3 {
+	case 0:
+		res = run(c, in, "text", "parse")
+	case 1:
+		res = run(c, in, "text", "parse", "-")
+	default:
+		res = run(c, nil, "text", "parse", c.Scratch.File("c04.txt", in))
+	}
 	if res.WallKill || res.StartErr != nil {
 		return false, "infra", res
 	}
@@ -498,6 +506,58 @@ func checkC04(c *core.Ctx) {
 			mine = append(mine, b)
 		}
 		judgeParse(c, g, "inject", i, dedup(mine), true, "inject")
+	})
+	// texts far beyond any buffer size (1 MiB and more, mostly comments and blank lines, which are cheap to
+	// write but still have to be read): nothing behind the padding may be dropped or invented
+	hugeCases := c.N(2, 6)
+	c.Stream("huge", hugeCases, func(i int, r *rand.Rand) {
+		size := []int{1100000, 2300000, 1100000, 600000, 1500000, 4300000}[i%6]
+		var b bytes.Buffer
+		b.WriteString("C[1] ;first\n")
+		line := ";" + strings.Repeat("padding ", 15) + "\n"
+		for b.Len() < size {
+			b.WriteString(line)
+			if r.Intn(50) == 0 {
+				b.WriteString("\n\t  \n")
+			}
+		}
+		tails := []struct {
+			tail   string
+			accept bool
+			items  int
+		}{{"Dm7/A[1,1/2]{k=v} R[2]\n", true, 3}, {"D[", false, 0}, {"D[1] ]", false, 0}, {"Em[2] ;end", true, 2}}
+		tc := tails[(i/1+r.Intn(2)*2)%len(tails)]
+		b.WriteString(tc.tail)
+		in := b.Bytes()
+		var res *runner.Result
+		if i%2 == 0 {
+			res = runCPU(c, 300, in, "text", "parse")
+		} else {
+			res = runCPU(c, 300, nil, "text", "parse", c.Scratch.File("huge.txt", in))
+		}
+		c.Eval(1)
+		if res.WallKill || res.StartErr != nil {
+			c.Inconclusive("watchdog on a huge input")
+			return
+		}
+		sig := fmt.Sprintf("huge:%d:%v", size, tc.accept)
+		if a := abnormal(res); a != "" {
+			c.Violate("huge", i, sig+":abnormal", fmt.Sprintf("crd text parse on a %d byte text %s", len(in), a), obs(res))
+			return
+		}
+		if res.OK() != tc.accept {
+			c.Violate("huge", i, sig+":accept", fmt.Sprintf("a %d byte text (comments, then %q) is accepted=%v, the grammar says %v", len(in), tc.tail, res.OK(), tc.accept), obs(res))
+			return
+		}
+		if tc.accept {
+			items, err := itemsFromParseYAML(res.Stdout)
+			if err != nil || len(items) != tc.items {
+				c.Violate("huge", i, sig+":tree", fmt.Sprintf("a %d byte text with %d chords/rests gives a tree with %d (err=%v)", len(in), tc.items, len(items), err), nil)
+				return
+			}
+		}
+		c.Nontrivial(fmt.Sprintf("huge%d", i))
+		c.Extra("huge_input_cpu_ms", res.CPUms)
 	})
 	// invalid UTF-8 and odd runes: accept/reject only
 	c.Stream("bytes", c.N(8, 64), func(i int, r *rand.Rand) {
